@@ -132,6 +132,77 @@ func extractSites(e *extractor) {
 			}
 		}
 	}
+	// callers of the functions that hand out a collection in map order (class 4): every caller must sort the
+	// result (or only quantify over it) before anything order dependent happens
+	collectors := map[string]bool{}
+	for _, r := range srows {
+		if strings.HasSuffix(r.key, " 4") {
+			name := r.key[:len(r.key)-2]
+			collectors[name[strings.Index(name, ":")+1:]] = true
+		}
+	}
+	var crows []string
+	for _, p := range pkgs {
+		for _, f := range p.Syntax {
+			fname := p.Fset.Position(f.Pos()).Filename
+			if strings.HasSuffix(fname, "_test.go") {
+				continue
+			}
+			rel := strings.TrimPrefix(strings.TrimPrefix(fname, e.repo), "/")
+			for _, d := range f.Decls {
+				fd, ok := d.(*ast.FuncDecl)
+				if !ok || fd.Body == nil {
+					continue
+				}
+				ast.Inspect(fd.Body, func(n ast.Node) bool {
+					as, ok := n.(*ast.AssignStmt)
+					var call *ast.CallExpr
+					target := ""
+					if ok && len(as.Rhs) == 1 {
+						call, _ = as.Rhs[0].(*ast.CallExpr)
+						if id, ok2 := as.Lhs[0].(*ast.Ident); ok2 {
+							target = id.Name
+						}
+					} else if es, ok2 := n.(*ast.ExprStmt); ok2 {
+						call, _ = es.X.(*ast.CallExpr)
+					} else if rs, ok2 := n.(*ast.RangeStmt); ok2 {
+						call, _ = rs.X.(*ast.CallExpr)
+					}
+					if call == nil {
+						return true
+					}
+					se, ok := call.Fun.(*ast.SelectorExpr)
+					if !ok || !collectors[se.Sel.Name] {
+						return true
+					}
+					if fo, ok := p.TypesInfo.Uses[se.Sel].(*types.Func); !ok || fo.Pkg() == nil || !strings.Contains(fo.Pkg().Path(), "goverter") {
+						return true
+					}
+					sorted := false
+					if target != "" {
+						ast.Inspect(fd.Body, func(m ast.Node) bool {
+							if c2, ok := m.(*ast.CallExpr); ok && c2.Pos() > call.End() {
+								if s2, ok := c2.Fun.(*ast.SelectorExpr); ok {
+									if id, ok := s2.X.(*ast.Ident); ok && id.Name == "sort" {
+										for _, a := range c2.Args {
+											if ai, ok := a.(*ast.Ident); ok && ai.Name == target {
+												sorted = true
+											}
+										}
+									}
+								}
+							}
+							return true
+						})
+					}
+					crows = append(crows, fmt.Sprintf(" (%s, %s, %s) (* %s calls %s, result sorted: %v *)", runes(se.Sel.Name), runes(rel+":"+fd.Name.Name), coqBool(sorted), rel+":"+fd.Name.Name, se.Sel.Name, sorted))
+					return true
+				})
+			}
+		}
+	}
+	sort.Strings(crows)
+	fmt.Fprintf(&e.out, "(* calls of the class-4 collectors declared as methods: (collector, caller, result sorted by the caller) *)\nDefinition x_collector_callers : list (rstr * rstr * bool) := [\n%s\n].\n", strings.Join(crows, ";\n"))
 	sort.Slice(srows, func(i, j int) bool { return srows[i].key < srows[j].key })
 	var rows []string
 	for _, r := range srows {
